@@ -1,10 +1,14 @@
 """C20 -- TeamCity output is a balanced, correctly escaped service-message stream.
-Scenario:  <dur> <nfilters> { <name> } <ntests> { <group> <name> <file> <line> <ignored> <nstmts> { :f <file> <line> <msg> | :x <file> <line> <msg> } }
-           (dur = milliseconds each running test takes on the scripted clock; filters = strict name filters (-sn), none = every test
-           runs; :f = addFailure and continue, :x = fail() and leave the test; tests are registered in the order given)
+Scenario:  [ :opt <run-ignored 0|1> <passes> ] <dur> <nfilters> { <name> } <ntests> { <group> <name> <file> <line> <ignored> <nstmts> { :f <file> <line> <msg> | :x <file> <line> <msg> } }
+           (run-ignored = the registry-wide switch -ri (TestRegistry::setRunIgnored): ignored tests are run as normal tests;
+           passes = number of runAllTests calls on the same registry and output (-r<n>); without the prefix: off, one pass;
+           dur = milliseconds each running test takes on the scripted clock; filters = strict name filters (-sn), none = every test
+           runs; :f = addFailure and continue, :x = fail() and leave the test; tests are registered in the order given; an ignored
+           test has a body too: it is executed only under run-ignored)
            :raw <bytes>  -- parser differential only (no library code): the Coq parser's reading of the bytes is compared with
            the reading of the independent decoder below.
-Observation: <stream> -- everything TeamCityTestOutput handed to printBuffer.
+Observation: <stream> <n> { <count> } -- everything TeamCityTestOutput handed to printBuffer; then per pass, per registered test, how
+           often the test's body was executed in that pass.
 Judges: the extracted Coq `spec` (tc_parse + balance + faithfulness) and, independently, the Python decoder + property check here."""
 import re
 from vlib import tb
@@ -15,15 +19,17 @@ HARNESS_SRCS = ["harness/C20.cpp"]
 RULE = ("runs of 0-6 groups x 1-8 scripted tests (pass / fail once / fail several times / fail() then unreachable statements / ignored, "
         "a quarter of the runs with strict name filters: some tests / whole groups / everything filtered out, "
         "all-ignored groups, equal group names on non-adjacent tests, failures inside the test's file, in another file, above the "
-        "test's line); every text (group, test name, source path, failure path, message) drawn from printable ASCII + CR + LF "
+        "test's line); runs with the registry-wide run-ignored switch on / off x 1-2 passes over 1-3 groups x 1-4 tests in which ignored "
+        "tests pass / fail once / fail several times / fail() and stand first, last, alone, next to normal tests, in all-ignored groups, "
+        "some with name filters (a fixed grid of the small patterns plus random ones); every text (group, test name, source path, failure path, message) drawn from printable ASCII + CR + LF "
         "weighted to ' | [ ] CR LF and to fragments such as |n |' '] ]\\n##teamcity[ ; empty texts and texts ending in | ; "
         "a few bytes >= 0x80 and control characters. A hand-written corpus puts each special character alone into each field. "
         ":raw cases = streams written by a Python writer and then mutated (deleted / inserted / replaced bytes) plus hand-written "
         "malformed messages, read by the Coq parser and by the independent decoder. "
         "non-trivial = some text contains a character with TeamCity meaning, or the run has a failure, an ignored test or more "
         "than one group (for :raw: always)")
-ASSUMPTIONS = ["tests of a run come from the registry in order; selection only by strict name filters (no group filters, no shuffling, no repeat, "
-               "ignored tests are not forced to run); test bodies do not print "
+ASSUMPTIONS = ["tests of a run come from the registry in order; selection only by strict name filters (no group filters, no shuffling, no separate "
+               "process; repeat and run-ignored are in the scenario); test bodies do not print "
                "(UT_PRINT text is copied raw into the stream and is outside the property)",
                "strings are C strings (no NUL); line numbers and the duration are size_t",
                "the clock seam is scripted (the duration value is not constrained by the property, only its quoting)",
@@ -65,8 +71,10 @@ def ser_stmt(st):
     return ":%s %s %x %s" % (st[0], tb(st[1]), st[2], tb(st[3]))
 
 
-def ser(dur, tests, filters=()):
-    out = ["%x" % dur, "%x" % len(filters)] + [tb(f) for f in filters] + ["%x" % len(tests)]
+def ser(dur, tests, filters=(), opts=(False, 1)):
+    ri, passes = opts
+    out = ([] if (not ri and passes == 1) else [":opt", "1" if ri else "0", "%x" % passes])
+    out += ["%x" % dur, "%x" % len(filters)] + [tb(f) for f in filters] + ["%x" % len(tests)]
     for (g, n, f, l, ign, body) in tests:
         out += [tb(g), tb(n), tb(f), "%x" % l, "1" if ign else "0", "%x" % len(body)] + [ser_stmt(s) for s in body]
     return " ".join(out)
@@ -80,8 +88,16 @@ def is_raw(s):
     return s.startswith(":raw")
 
 
+def opts_of(s):
+    """(run-ignored, passes) of a scenario line"""
+    t = s.split()
+    return (t[1] != "0", int(t[2], 16)) if t and t[0] == ":opt" else (False, 1)
+
+
 def parse_scn(s):
     t = s.split()
+    if t and t[0] == ":opt":
+        t = t[3:]
     dur = int(t[0], 16); nf = int(t[1], 16)
     filters = [unb(x) for x in t[2:2 + nf]]
     n = int(t[2 + nf], 16); i = 3 + nf
@@ -155,6 +171,64 @@ def gen_run(rng, special=True, big=False):
             if rng.random() < 0.15:
                 filters.append(filters[0])                   # the same filter twice
     return ser(dur, tests, filters)
+
+
+BODIES = [[], [("f", None, 5, b"boom")], [("x", None, 6, b"stop"), ("f", None, 7, b"unreachable")],
+          [("f", None, 5, b"one"), ("f", b"helper.cpp", 2, b"two")]]
+
+
+def _mk(g, n, ign, body, line=10):
+    return (g, n, b"a.cpp", line, ign, [(k, b"a.cpp" if f is None else f, l, m) for (k, f, l, m) in body])
+
+
+def ri_grid():
+    """the small patterns of ignored tests (I) and normal tests (N), passing / failing, in first position and later, alone and in
+    several groups, each with run-ignored off / on and one / two passes"""
+    I = lambda g, n, b=0: _mk(g, n, True, BODIES[b])
+    N = lambda g, n, b=0: _mk(g, n, False, BODIES[b])
+    pats = [[I(b"G", b"i")], [I(b"G", b"i", 1)], [I(b"G", b"i", 2)], [I(b"G", b"i", 3)],
+            [I(b"G", b"i"), N(b"G", b"n")], [N(b"G", b"n"), I(b"G", b"i")], [N(b"G", b"n", 1), I(b"G", b"i", 1)],
+            [I(b"G", b"i", 1), N(b"G", b"n", 1)], [N(b"G", b"n"), I(b"G", b"i", 1), N(b"G", b"m")],
+            [I(b"G", b"i"), I(b"G", b"j", 1)], [I(b"G", b"i", 1), I(b"G", b"j")],
+            [I(b"G", b"i")] + [N(b"H", b"n")], [N(b"G", b"n"), I(b"H", b"i", 1)], [I(b"G", b"i", 1), I(b"H", b"j", 2)],
+            [N(b"G", b"n"), N(b"G", b"m", 1), I(b"H", b"i"), N(b"K", b"k"), I(b"K", b"j", 1)],
+            [I(b"G", b"t"), N(b"G", b"t")], [N(b"", b"n"), I(b"", b""), I(b"G'", b"i]", 1)]]
+    out = []
+    for pat in pats:
+        for opts in ((True, 1), (False, 1), (True, 2), (False, 2)):
+            out.append(ser(3, pat, (), opts))
+    out.append(ser(3, pats[8], [b"i"], (True, 1)))        # only the ignored test is selected
+    out.append(ser(3, pats[8], [b"n", b"m"], (True, 2)))  # the ignored test is filtered out
+    out.append(ser(3, pats[14], [b"i", b"k"], (True, 1)))
+    out.append(ser(0, [], (), (True, 2)))
+    out.append(ser(0, pats[0], (), (True, 0)))            # no pass at all
+    return out
+
+
+def gen_ri(rng, big=False):
+    """random runs aimed at the run-ignored switch: many ignored tests with bodies"""
+    tx = (lambda m=8: text(rng, m)) if rng.random() < 0.3 else (lambda m=8: plain(rng, 4))
+    tests = []
+    gnames = []
+    for _ in range(rng.choice([1, 1, 2, 2, 3] if not big else [3, 4, 6])):
+        g = tx()
+        while g in gnames[-1:]:
+            g += b"x"
+        gnames.append(g)
+        f = tx()
+        allign = rng.random() < 0.2
+        for _ in range(rng.choice([1, 1, 2, 2, 3, 4] if not big else [3, 5, 8])):
+            line = rng.choice([1, 10, 100, rng.randrange(1, 5000)])
+            body = []
+            for _ in range(rng.choice([0, 0, 1, 1, 2, 3])):
+                body.append(("f" if rng.random() < 0.7 else "x", f if rng.random() < 0.6 else tx(), rng.choice([0, line, line + 1, max(0, line - 1), rng.randrange(1, 5000)]), tx(12)))
+            tests.append((g, tx(), f, line, allign or rng.random() < 0.55, body))
+    filters = []
+    if tests and rng.random() < 0.2:
+        names = sorted(set(t[1] for t in tests))
+        filters = rng.sample(names, rng.randrange(1, min(len(names), 3) + 1))
+    opts = (rng.random() < 0.7, rng.choice([1, 1, 1, 2, 2, 3] if big else [1, 1, 2]))
+    return ser(rng.choice([0, 1, 42]), tests, filters, opts)
 
 
 def corpus_like():
@@ -236,6 +310,9 @@ def generate(tier, rng):
         out.append(gen_run(rng, special=(k % 10 != 0), big=(tier != "quick" and k % 50 == 0)))
     for k in range(300 if tier == "quick" else 25000):
         out.append(gen_raw(rng))
+    out += ri_grid()
+    for k in range(150 if tier == "quick" else 8000):
+        out.append(gen_ri(rng, big=(tier != "quick" and k % 40 == 0)))
     return out
 
 
@@ -269,21 +346,35 @@ def classify(s):
     lab = ["groups=%d" % min(6, len(segs)), "tests=%s" % ("0" if not tests else "1" if len(tests) == 1 else "2-5" if len(tests) <= 5 else "6-15" if len(tests) <= 15 else "16+")]
     if any(t[4] for t in tests): lab.append("ignored test")
     if any(all(t[4] for t in g) for g in segs): lab.append("all-ignored group")
-    nf = [len(reached(t[5])) for t in tests if not t[4]]
+    if any(t[4] and t[5] for t in tests): lab.append("ignored test with a body that would fail")
+    ri0 = opts_of(s)[0]
+    runs = lambda t: not t[4] or ri0
+    nf = [len(reached(t[5])) for t in tests if runs(t)]
     if any(x == 1 for x in nf): lab.append("test failing once")
     if any(x > 1 for x in nf): lab.append("test failing several times")
     if any(st[0] == "x" for t in tests for st in t[5]): lab.append("fail() terminates test")
-    if any(st[1] != t[2] for t in tests if not t[4] for st in reached(t[5])): lab.append("failure outside the test's file")
-    if any(st[1] == t[2] and st[2] < t[3] for t in tests if not t[4] for st in reached(t[5])): lab.append("failure above the test's line (helper)")
+    if any(st[1] != t[2] for t in tests if runs(t) for st in reached(t[5])): lab.append("failure outside the test's file")
+    if any(st[1] == t[2] and st[2] < t[3] for t in tests if runs(t) for st in reached(t[5])): lab.append("failure above the test's line (helper)")
     if _has(names): lab.append("special char in a name/path")
     if _has(msgs): lab.append("special char in a message")
-    if _has([t[2] for t in tests if not t[4] and any(st[1] != t[2] or st[2] < t[3] for st in reached(t[5]))]): lab.append("special char in the test path of an outside failure")
+    if _has([t[2] for t in tests if runs(t) and any(st[1] != t[2] or st[2] < t[3] for st in reached(t[5]))]): lab.append("special char in the test path of an outside failure")
     if any(b.endswith(b"|") for b in names + msgs): lab.append("text ending in |")
     if any(t[0] == b"" for t in tests): lab.append("empty group name")
     if any(t[1] == b"" for t in tests): lab.append("empty test name")
     gn = [g[0][0] for g in segs]
     if len(set(gn)) < len(gn): lab.append("group name repeated non-adjacently")
     if any(c >= 0x80 or c < 0x20 and c not in (10, 13) for b in names + msgs for c in b): lab.append("byte outside printable ASCII")
+    ri, passes = opts_of(s)
+    lab.append("run-ignored on" if ri else "run-ignored off")
+    lab.append("passes=%d" % passes)
+    if ri:
+        ig = [t for t in tests if t[4]]
+        if ig: lab.append("run-ignored: ignored test is run")
+        if any(not reached(t[5]) for t in ig): lab.append("run-ignored: ignored test passes")
+        if any(reached(t[5]) for t in ig): lab.append("run-ignored: ignored test fails")
+        if tests and tests[0][4]: lab.append("run-ignored: ignored test in first position")
+        if any(t[4] for t in tests[1:]): lab.append("run-ignored: ignored test in a later position")
+        if ig and any(not t[4] for t in tests): lab.append("run-ignored: ignored and normal tests mixed")
     filters = parse_scn(s)[1]
     if filters:
         lab.append("name filters")
@@ -341,12 +432,21 @@ def reached(body):
 
 
 def judge(s, obs):
-    """None or text of what is wrong with the stream of this run (the property, stated over the decoded messages)"""
+    """None or text of what is wrong with the observation of this run (the property, stated over the decoded messages and the
+    observed executions of test bodies)"""
     dur, filters, tests = parse_scn(s)
+    ri, passes = opts_of(s)
+    ot = obs.split()
     try:
-        msgs = decode_stream(unb(obs.split()[0]))
+        msgs = decode_stream(unb(ot[0]))
     except ValueError as e:
         return "stream does not decode (%s)" % str(e)[:60]
+    try:
+        execs = [int(x, 16) for x in ot[2:]]
+        if len(execs) != int(ot[1], 16):
+            raise ValueError
+    except (ValueError, IndexError):
+        return "observation without execution counts"
     msgs = [(n, dict(a)) for n, a in msgs]
     # balance, from the messages alone
     suite = test = None
@@ -372,21 +472,52 @@ def judge(s, obs):
             return "unexpected message kind"
     if suite is not None or test is not None:
         return "suite or test left open at the end"
+    # the ignored flag against the executions: walk the test brackets in order (one per selected test per pass)
+    slots = [(p, i) for p in range(passes) for i, t in enumerate(tests) if selected(filters, t)]
+    if len(execs) != passes * len(tests):
+        return "number of execution counts differs from passes x tests"
+    brackets = []
+    for n, a in msgs:
+        if n == b"testStarted":
+            brackets.append([False, 0])
+        elif n == b"testIgnored":
+            brackets[-1][0] = True
+        elif n == b"testFailed":
+            brackets[-1][1] += 1
+    if len(brackets) == len(slots):
+        for (p, i), (flagged, nfail) in zip(slots, brackets):
+            ran = execs[p * len(tests) + i]
+            not_run = tests[i][4] and not ri
+            if flagged and ran:
+                return "test flagged testIgnored although its body was executed"
+            if flagged and nfail:
+                return "test flagged testIgnored has a testFailed message"
+            if flagged and not not_run:
+                return "test flagged testIgnored although it is run"
+            if not flagged and not_run:
+                return "ignored test that is not run lacks the testIgnored flag"
+            if not flagged and ran != 1:
+                return "body of a test that is not flagged was executed %d times" % ran
+    for p in range(passes):
+        for i, t in enumerate(tests):
+            if not selected(filters, t) and execs[p * len(tests) + i]:
+                return "body of a test that is not selected was executed"
     # faithfulness against the scenario
     exp = []
-    for g in segments(tests):
-        exp.append((b"testSuiteStarted", g[0][0], None, None))
-        for t in g:
-            if not selected(filters, t):
-                continue
-            exp.append((b"testStarted", t[1], None, None))
-            if t[4]:
-                exp.append((b"testIgnored", t[1], None, None))
-            else:
-                for st in reached(t[5]):
-                    exp.append((b"testFailed", t[1], t, st))
-            exp.append((b"testFinished", t[1], None, None))
-        exp.append((b"testSuiteFinished", g[0][0], None, None))
+    for _ in range(passes):
+        for g in segments(tests):
+            exp.append((b"testSuiteStarted", g[0][0], None, None))
+            for t in g:
+                if not selected(filters, t):
+                    continue
+                exp.append((b"testStarted", t[1], None, None))
+                if t[4] and not ri:
+                    exp.append((b"testIgnored", t[1], None, None))
+                else:
+                    for st in reached(t[5]):
+                        exp.append((b"testFailed", t[1], t, st))
+                exp.append((b"testFinished", t[1], None, None))
+            exp.append((b"testSuiteFinished", g[0][0], None, None))
     if [(n, a[b"name"]) for n, a in msgs] != [(e[0], e[1]) for e in exp]:
         return "message sequence / names differ from the run"
     for (n, a), e in zip(msgs, exp):
@@ -411,7 +542,7 @@ def extra_oracle(s, obs, flavour):
 
 def project(obs, flavour):
     """only what the property constrains exactly: the decoded message list (kinds, and the name / details values whatever the
-    attribute order).  The wording of the location value (message=...) is constrained only through spec / the judge (it must end with
+    attribute order) and the execution counts of the test bodies.  The wording of the location value (message=...) is constrained only through spec / the judge (it must end with
     the failure's file:line and carry the test's file:line for outside failures); duration, other attributes and text outside
     messages are dropped."""
     t = obs.split()
@@ -430,7 +561,7 @@ def project(obs, flavour):
             except ValueError:
                 return "RAW REJECT"
         msgs = decode_stream(unb(t[0]))
-        return repr([(n, sorted((k, v) for k, v in a if k in (b"name", b"details"))) for n, a in msgs])
+        return repr([(n, sorted((k, v) for k, v in a if k in (b"name", b"details"))) for n, a in msgs]) + " executed=" + " ".join(t[2:])
     except ValueError:
         return "REJECT"
     except Exception:
@@ -448,6 +579,7 @@ def signature(s, obs):
     where = []
     if _has(names): where.append("name/path")
     if any(t[0] == b"" for t in tests): where.append("empty group")
+    if opts_of(s)[0]: where.append("run-ignored")
     return "%s [%s]" % (w, ",".join(where) or "-")
 
 
@@ -455,20 +587,26 @@ def shrink(s):
     if is_raw(s):
         return
     dur, filters, tests = parse_scn(s)
+    ri, passes = opts_of(s)
+    S = lambda d, ts, fs=(): ser(d, ts, fs, (ri, passes))
+    if passes > 1:
+        yield ser(dur, tests, filters, (ri, 1))
+    if ri:
+        yield ser(dur, tests, filters, (False, passes))
     if dur:
-        yield ser(0, tests, filters)
+        yield S(0, tests, filters)
     if filters:
-        yield ser(dur, tests, [])
+        yield S(dur, tests, [])
         for i in range(len(filters)):
             if len(filters) > 1:
-                yield ser(dur, tests, filters[:i] + filters[i + 1:])
+                yield S(dur, tests, filters[:i] + filters[i + 1:])
     for i in range(len(tests)):
         if len(tests) > 1:
-            yield ser(dur, tests[:i] + tests[i + 1:], filters)
+            yield S(dur, tests[:i] + tests[i + 1:], filters)
     for i, t in enumerate(tests):
         g, n, f, l, ign, body = t
         for j in range(len(body)):
-            yield ser(dur, tests[:i] + [(g, n, f, l, ign, body[:j] + body[j + 1:])] + tests[i + 1:], filters)
+            yield S(dur, tests[:i] + [(g, n, f, l, ign, body[:j] + body[j + 1:])] + tests[i + 1:], filters)
     def shorter(b):
         if len(b) > 1:
             yield b[:len(b) // 2]
@@ -480,53 +618,57 @@ def shrink(s):
         for c in shorter(x):
             if all(t[1] != x for t in tests):          # a filter that selects nothing may become any other text that selects nothing
                 if all(t[1] != c for t in tests):
-                    yield ser(dur, tests, filters[:i] + [c] + filters[i + 1:])
+                    yield S(dur, tests, filters[:i] + [c] + filters[i + 1:])
     for i, t in enumerate(tests):
         g, n, f, l, ign, body = t
         for fld in range(3):
             for c in shorter(t[fld]):
                 if fld == 0:
                     # keep the group structure: rename every test of this group name
-                    yield ser(dur, [((c,) + x[1:]) if x[0] == g else x for x in tests], filters)
+                    yield S(dur, [((c,) + x[1:]) if x[0] == g else x for x in tests], filters)
                 else:
                     tt = list(t); tt[fld] = c
                     if fld == 1 and n in filters:
                         # keep the test selected: shorten the filter too
-                        yield ser(dur, tests[:i] + [tuple(tt)] + tests[i + 1:], [c if x == n else x for x in filters])
+                        yield S(dur, tests[:i] + [tuple(tt)] + tests[i + 1:], [c if x == n else x for x in filters])
                     if fld == 2 and any(st[1] == f for st in body):
                         # keep "failure in the test's own file": shorten the path in the statements too
                         tt[5] = [(st[0], c, st[2], st[3]) if st[1] == f else st for st in body]
-                        yield ser(dur, tests[:i] + [tuple(tt)] + tests[i + 1:], filters)
+                        yield S(dur, tests[:i] + [tuple(tt)] + tests[i + 1:], filters)
                         tt = list(t); tt[fld] = c
-                    yield ser(dur, tests[:i] + [tuple(tt)] + tests[i + 1:], filters)
+                    yield S(dur, tests[:i] + [tuple(tt)] + tests[i + 1:], filters)
         if l > 1:
             if any(st[2] < l for st in body):
                 # keep "failure above the test's line": those failures move to line 0
-                yield ser(dur, tests[:i] + [(g, n, f, 1, ign, [(st[0], st[1], 0, st[3]) if st[2] < l else st for st in body])] + tests[i + 1:], filters)
-            yield ser(dur, tests[:i] + [(g, n, f, 1, ign, body)] + tests[i + 1:], filters)
+                yield S(dur, tests[:i] + [(g, n, f, 1, ign, [(st[0], st[1], 0, st[3]) if st[2] < l else st for st in body])] + tests[i + 1:], filters)
+            yield S(dur, tests[:i] + [(g, n, f, 1, ign, body)] + tests[i + 1:], filters)
         for j, st in enumerate(body):
             for fld in (1, 3):
                 for c in shorter(st[fld]):
                     ss = list(st); ss[fld] = c
-                    yield ser(dur, tests[:i] + [(g, n, f, l, ign, body[:j] + [tuple(ss)] + body[j + 1:])] + tests[i + 1:], filters)
+                    yield S(dur, tests[:i] + [(g, n, f, l, ign, body[:j] + [tuple(ss)] + body[j + 1:])] + tests[i + 1:], filters)
             if st[2] > 1:
                 ss = list(st); ss[2] = 1
-                yield ser(dur, tests[:i] + [(g, n, f, l, ign, body[:j] + [tuple(ss)] + body[j + 1:])] + tests[i + 1:], filters)
+                yield S(dur, tests[:i] + [(g, n, f, l, ign, body[:j] + [tuple(ss)] + body[j + 1:])] + tests[i + 1:], filters)
 
 
 LEVEL_TEXT = ("Machine-checked (Coq) theorems over an executable model of TeamCityTestOutput (currtest_, currGroup_, groupOpen_, printEscaped, the pieces "
               "of printFailure) driven by the callback order of TestRegistry::runAllTests: decoding printEscaped's output by the TeamCity rules returns the "
               "original text and the escaped text has no unescaped ' [ ] CR LF, for all byte strings; a service-message parser written in Coq (strict: raw "
               "special characters, unknown escapes, duplicate attributes, text after ], marker inside a line are rejected) run on the stream of any run - any "
-              "groups / pass / fail / ignore pattern, any byte strings as names, paths and messages, followed by any summary text - returns exactly "
+              "groups / pass / fail / ignore pattern, with and without the registry-wide run-ignored switch, any number of passes, any byte strings as names, "
+              "paths and messages, followed by any summary text - returns exactly "
               "messages_of(run); messages_of is balanced (suite and test brackets paired by name, ignored / failed messages name the open test) and faithful "
-              "(testIgnored iff ignored, one testFailed per failure in order with text and locations decoded to the originals); the two pre-repair behaviours "
-              "(D15) are refuted. Tied to the code by a differential run of the extracted model against a real TeamCityTestOutput (printBuffer captured), "
+              "(testIgnored iff the test is ignored and not run, a flagged test's body not executed and without testFailed, every other selected test's body "
+              "executed once, one testFailed per failure in order with text and locations decoded to the originals); the run options are applied to a shell "
+              "before anything is reported about it, so under run-ignored the observation equals that of the registry with the ignored markers removed; "
+              "the two pre-repair behaviours (D15) are refuted. Tied to the code by a differential run of the extracted model against a real TeamCityTestOutput (printBuffer captured) driven by a real "
+              "TestRegistry::runAllTests over scripted UtestShell / IgnoredUtestShell shells that count the executions of their bodies, "
               "judged by the extracted spec and independently by a regular-expression decoder written from the TeamCity documentation; the two decoders are "
               "also compared on mutated streams.")
 LEVEL_NOTE = ("Trusted: Coq kernel, extraction, harness, generators, the Python decoder. Modelled not verified: the C++ itself; StringFrom(size_t) is "
               "modelled as decimal digits; the clock is scripted by the harness. Not covered: text printed by test bodies (copied raw into the stream), the "
-              "TeamCity escapes |x |l |p |0xNNNN and the single-value message form (never written; both decoders reject them), filters / repeated runs / "
-              "shuffling (callback order is that of an unfiltered registry), other TestOutput classes.")
+              "TeamCity escapes |x |l |p |0xNNNN and the single-value message form (never written; both decoders reject them), group / non-strict filters, "
+              "shuffling, reversing, separate-process runs, other TestOutput classes.")
 TECHNIQUE = "Coq proof over hand-written executable model (writer + service-message parser round trip) + extracted-model/implementation correspondence check with an independent decoder as second judge"
 READY = True
